@@ -5,9 +5,18 @@
 (* "after", DESIGN 2.2) by the driver, which also degrades every class of a scenario to "amb"   *)
 (* when its scheduling-noise probe saw the machine stall.                                       *)
 (*                                                                                              *)
-(* One scenario = Reset, then Call / Complete / Return lines in the order of their instants,    *)
-(* then Finish.  The lines drive the observation actions of Submitter (ObsCall, ObsComplete,    *)
-(* ObsReturn); the verdict comes from the C08 invariants of Submitter over the observation      *)
+(* One scenario = one HISTORY of submissions on one real submitter instance: Reset (a fresh     *)
+(* instance and its first submission), then Call / Complete / Return lines in the order of      *)
+(* their instants, then Finish; every further submission on the same instance is NextCall, its  *)
+(* lines, Finish.  Reset forgets everything; NextCall keeps `known` (what the nodes reported at *)
+(* successful version lookups so far) and nothing else, and requires the same nodes (clients)   *)
+(* and the same concurrency.  Submissions that overlapped in real time (a node reply of one was *)
+(* held until the next one had returned) are written one after the other in the order they     *)
+(* were started: C08 judges every submission by its own observations and `known`, and within    *)
+(* an overlapping group the scenario gives every node the same version-query outcome, so the    *)
+(* order of the groups' lines does not matter for `known`.                                      *)
+(* The lines drive the observation actions of Submitter (ObsCall, ObsComplete, ObsReturn,       *)
+(* ObsNextCall); the verdict comes from the C08 invariants of Submitter over the observation    *)
 (* variables, evaluated after every line.  The mechanism variables of Submitter are not bound   *)
 (* (the code is judged by what the property says, not by how it is built).                      *)
 (* Scatter scenarios = Reset + one Scatter line per (items, concurrency) with the extents the   *)
@@ -21,12 +30,13 @@ NoScat == [items |-> 0]
 
 MechIdle ==
     /\ mpc = "pre" /\ npc = <<>> /\ sem = 0 /\ due = <<>> /\ completed = FALSE
-    /\ tpc = "armed" /\ clock = 0 /\ lost = 0
+    /\ tpc = "armed" /\ clock = 0 /\ lost = 0 /\ memo = <<>> /\ held = 0
 
 TraceInit ==
     /\ l = 1
     /\ kind = "att" /\ conc = 1 /\ items = 1 /\ nodes = <<>>
     /\ ObsInit
+    /\ known = <<>> /\ callNo = 1
     /\ MechIdle
     /\ scat = NoScat
     /\ InitHWM
@@ -45,8 +55,18 @@ TraceReset ==
     /\ done' = [n \in 1..Len(Trace[l].nodes) |-> "no"]
     /\ pre' = [n \in 1..Len(Trace[l].nodes) |-> FALSE]
     /\ ret' = "none" /\ retAt' = "none" /\ final' = FALSE
+    /\ known' = Learn([n \in 1..Len(Trace[l].nodes) |-> {}], Trace[l].nodes)
+    /\ callNo' = 1
     /\ scat' = NoScat
     /\ UNCHANGED mvars
+
+\* the next submission on the same instance
+TraceNextCall ==
+    /\ IsEvent("NextCall")
+    /\ Trace[l].call = callNo + 1
+    /\ Trace[l].conc = conc
+    /\ ObsNextCall(Trace[l].kind, Trace[l].items, Trace[l].nodes)
+    /\ UNCHANGED <<mvars, scat>>
 
 TraceCall ==
     /\ IsEvent("Call")
@@ -54,7 +74,7 @@ TraceCall ==
     /\ callAt[Trace[l].node] = "no"
     /\ Trace[l].at \in {"early", "amb", "late"}
     /\ ObsCall(Trace[l].node, Trace[l].chunks, Trace[l].at)
-    /\ UNCHANGED <<cvars, reply, done, pre, ret, retAt, final, mvars, scat>>
+    /\ UNCHANGED <<cvars, ivars, reply, done, pre, ret, retAt, final, mvars, scat>>
 
 TraceComplete ==
     /\ IsEvent("Complete")
@@ -64,20 +84,20 @@ TraceComplete ==
     /\ Trace[l].reply \in {"accept", "error"}
     /\ Trace[l].at \in {"before", "amb", "after"}
     /\ ObsComplete(Trace[l].node, Trace[l].reply, Trace[l].at)
-    /\ UNCHANGED <<cvars, offered, callAt, ret, retAt, final, mvars, scat>>
+    /\ UNCHANGED <<cvars, ivars, offered, callAt, ret, retAt, final, mvars, scat>>
 
 TraceReturn ==
     /\ IsEvent("Return")
     /\ ret = "none"
     /\ Trace[l].at \in {"before", "amb", "after"}
     /\ ObsReturn(IF Trace[l].ok THEN "ok" ELSE "err", Trace[l].at)
-    /\ UNCHANGED <<cvars, offered, callAt, reply, done, pre, final, mvars, scat>>
+    /\ UNCHANGED <<cvars, ivars, offered, callAt, reply, done, pre, final, mvars, scat>>
 
 \* end of the observation window (a call that has not returned by now never returned in time)
 TraceFinish ==
     /\ IsEvent("Finish")
     /\ final' = TRUE
-    /\ UNCHANGED <<cvars, offered, callAt, reply, done, pre, ret, retAt, mvars, scat>>
+    /\ UNCHANGED <<cvars, ivars, offered, callAt, reply, done, pre, ret, retAt, mvars, scat>>
 
 TraceScatter ==
     /\ IsEvent("Scatter")
@@ -85,7 +105,7 @@ TraceScatter ==
                 results |-> Trace[l].results, err |-> Trace[l].err]
     /\ UNCHANGED <<vars>>
 
-TraceNext == TraceReset \/ TraceCall \/ TraceComplete \/ TraceReturn \/ TraceFinish \/ TraceScatter
+TraceNext == TraceReset \/ TraceNextCall \/ TraceCall \/ TraceComplete \/ TraceReturn \/ TraceFinish \/ TraceScatter
 
 TraceSpec == TraceInit /\ [][TraceNext]_tvars
 
